@@ -141,6 +141,35 @@ package xmpp
 //@   requires typeof(p) == *stanza.IQ ==> p.(*stanza.IQ) != nil
 //@   ensures [C06.matcher.ns] ok == (typeof(p) == *stanza.IQ && p.(*stanza.IQ).Payload != nil && inList(m, nsOf(p.(*stanza.IQ).Payload)))
 //
+// Route builders: the matcher a builder appends holds exactly the given values, lower-cased, in order - nothing else.
+//@ pred appended(r, m) := len(r.matchers) == old(len(r.matchers)) + 1 && r.matchers[old(len(r.matchers))] == m && forall(k, 0, old(len(r.matchers)), r.matchers[k] == old(r.matchers[k])) && r.handler == old(r.handler)
+//@ func (*xmpp.Route).AddMatcher(r, m) (res)
+//@   requires r != nil
+//@   ensures [C06.build.add] res == r && appended(r, m)
+//@   assigns r.matchers
+//@   elems r.matchers
+//@ func (*xmpp.Route).Packet(r, name) (res)
+//@   requires r != nil
+//@   ensures [C06.build.name] res == r && len(r.matchers) == old(len(r.matchers)) + 1 && typeof(r.matchers[old(len(r.matchers))]) == nameMatcher && r.matchers[old(len(r.matchers))].(nameMatcher) == lower(name) && forall(k, 0, old(len(r.matchers)), r.matchers[k] == old(r.matchers[k])) && r.handler == old(r.handler)
+//@   assigns r.matchers
+//@   elems r.matchers
+//@ func (*xmpp.Route).StanzaType(r, types) (res)
+//@   requires r != nil
+//@   ensures [C06.build.type] res == r && len(r.matchers) == old(len(r.matchers)) + 1 && typeof(r.matchers[old(len(r.matchers))]) == nsTypeMatcher && len(r.matchers[old(len(r.matchers))].(nsTypeMatcher)) == old(len(types)) && forall(k, 0, old(len(types)), r.matchers[old(len(r.matchers))].(nsTypeMatcher)[k] == lower(old(types[k]))) && forall(k, 0, old(len(r.matchers)), r.matchers[k] == old(r.matchers[k])) && r.handler == old(r.handler)
+//@   assigns r.matchers
+//@   elems r.matchers, types
+//@   loop 1:
+//@     invariant 0 <= $i && $i <= len(types) && forall(k, 0, $i, types[k] == lower(old(types[k]))) && forall(k, $i, len(types), types[k] == old(types[k]))
+//@     decreases len(types) - $i
+//@ func (*xmpp.Route).IQNamespaces(r, namespaces) (res)
+//@   requires r != nil
+//@   ensures [C06.build.ns] res == r && len(r.matchers) == old(len(r.matchers)) + 1 && typeof(r.matchers[old(len(r.matchers))]) == nsIQMatcher && len(r.matchers[old(len(r.matchers))].(nsIQMatcher)) == old(len(namespaces)) && forall(k, 0, old(len(namespaces)), r.matchers[old(len(r.matchers))].(nsIQMatcher)[k] == lower(old(namespaces[k]))) && forall(k, 0, old(len(r.matchers)), r.matchers[k] == old(r.matchers[k])) && r.handler == old(r.handler)
+//@   assigns r.matchers
+//@   elems r.matchers, namespaces
+//@   loop 1:
+//@     invariant 0 <= $i && $i <= len(namespaces) && forall(k, 0, $i, namespaces[k] == lower(old(namespaces[k]))) && forall(k, $i, len(namespaces), namespaces[k] == old(namespaces[k]))
+//@     decreases len(namespaces) - $i
+//
 //@ pred wfRoute(r) := r != nil && forall(k, 0, len(r.matchers), r.matchers[k] != nil)
 //@ pred routeAccepts(r, p) := forall(k, 0, len(r.matchers), accepts(r.matchers[k], p))
 //
@@ -775,6 +804,7 @@ package xmpp
 //@   requires connectOK(c)
 //@   ensures [C03.connect.ok]   err == nil ==> c.CurrentState.state == StateSessionEstablished && c.Session != nil && c.Session.err == nil && count(AuthConfirmed) == old(count(AuthConfirmed)) + 1 && (c.config.Insecure || last(SecureAsked, 1)) && (old(c.Handler) != nil ==> count(EventHandler) == old(count(EventHandler)) + 1 && last(EventHandler).State.state == StateSessionEstablished)
 //@   ensures [C03.connect.fail] err != nil ==> c.CurrentState.state == old(c.CurrentState.state) && count(EventHandler) == old(count(EventHandler))
+//@   ensures [C13.connect.spawns] count(Spawn) - old(count(Spawn)) == count(Spawn_connect$1) - old(count(Spawn_connect$1)) && count(Spawn) - old(count(Spawn)) <= 1 && (err == nil ==> count(Spawn) == old(count(Spawn)))
 //@   ensures old(c.Handler) == nil ==> count(EventHandler) == old(count(EventHandler))
 //@   ensures c.transport == old(c.transport) && c.config == old(c.config) && c.Handler == old(c.Handler) && c.router == old(c.router) && c.ErrorHandler == old(c.ErrorHandler) && connectOK(c)
 //@   assigns c.Session, c.Session.err, c.Session.Features, c.Session.TlsEnabled, c.Session.StreamId, c.Session.SMState, c.Session.BindJid, c.Session.lastPacketId, c.config.StreamManagementEnable, c.CurrentState.state
